@@ -11,169 +11,304 @@ import (
 	"cuelang.org/go/internal/verifharness/common"
 )
 
-// ---- a scope-aware random program generator -------------------------------
+// ---- a scope- and type-aware random program generator ------------------------
+//
+// Expressions are generated for a wanted type (int, string, bool, list of int,
+// struct, any) and references pick visible fields of that type, so that most
+// programs evaluate without error; with a small probability an expression of an
+// arbitrary type is used instead (the malformed part of the stream).
+
+type ty byte
+
+const (
+	tI ty = 'I'
+	tS ty = 'S'
+	tB ty = 'B'
+	tL ty = 'L'
+	tT ty = 'T'
+	tA ty = 'A'
+)
+
+type binding struct {
+	name string
+	t    ty
+}
 
 type rich struct {
 	r      *common.Rng
-	scopes [][]string // visible field names, innermost last
+	scopes [][]binding // visible names, innermost last
 	lets   int
 	pkgs   map[string]bool
 	budget int // remaining nodes; keeps programs small
 	feat   richFeat
+	chaos  int // 1/chaos of the typed choices are replaced by an arbitrary-type expression (0 = never)
 }
 
 type richFeat struct {
-	refs, lists, compr, lets, disj, builtins, dyn bool
+	refs, lists, compr, lets, disj, builtins, dyn, defs bool
 }
 
-var richNames = []string{"a", "b", "c", "d", "e", "f", "g", "#A", "#B", "_h"}
+var richNames = []string{"a", "b", "c", "d", "e", "f", "g", "h", "foo", "bar", "_h", "_k"}
 
 func (g *rich) push() { g.scopes = append(g.scopes, nil) }
 func (g *rich) pop()  { g.scopes = g.scopes[:len(g.scopes)-1] }
-func (g *rich) declare(n string) {
-	g.scopes[len(g.scopes)-1] = append(g.scopes[len(g.scopes)-1], n)
+func (g *rich) declare(n string, t ty) {
+	g.scopes[len(g.scopes)-1] = append(g.scopes[len(g.scopes)-1], binding{n, t})
 }
-func (g *rich) visible() []string {
+func (g *rich) fresh() string {
+	cur := g.scopes[len(g.scopes)-1]
+	for try := 0; ; try++ {
+		n := common.Pick(g.r, richNames)
+		if try > 3 {
+			n = fmt.Sprintf("%s%d", n, g.r.Intn(100))
+		}
+		ok := true
+		for _, b := range cur {
+			if b.name == n {
+				ok = false
+			}
+		}
+		if ok {
+			return n
+		}
+	}
+}
+func (g *rich) visible(t ty) []string {
 	var vs []string
 	for _, s := range g.scopes {
-		vs = append(vs, s...)
+		for _, b := range s {
+			if b.t == t || t == tA {
+				vs = append(vs, b.name)
+			}
+		}
 	}
 	return vs
 }
+func (g *rich) use(p string) { g.pkgs[p] = true }
 
-func (g *rich) ref() string {
-	vs := g.visible()
-	if len(vs) == 0 || !g.feat.refs {
-		return g.lit()
+func (g *rich) pickType() ty {
+	ts := []ty{tI, tI, tI, tS, tS, tB, tT, tT}
+	if g.feat.lists {
+		ts = append(ts, tL, tL)
 	}
-	n := common.Pick(g.r, vs)
-	switch g.r.Intn(10) {
-	case 0:
-		return n + "." + common.Pick(g.r, richNames[:5])
-	case 1:
-		return n + "[0]"
-	case 2:
-		return n + `["a"]`
-	}
-	return n
+	return common.Pick(g.r, ts)
 }
 
-func (g *rich) lit() string {
-	switch g.r.Intn(16) {
-	case 0, 1, 2, 3, 4:
-		return fmt.Sprint(g.r.Intn(12) - 2)
-	case 5:
-		return common.Pick(g.r, []string{"1.5", "0.1", "1e3", "2.0", "1_000", "0x1F", "0b101", "0o17", "1K", "2Mi", "1e-3", "123456789012345678901234567890"})
-	case 6, 7:
-		return common.Pick(g.r, []string{`"x"`, `"y"`, `"ab"`, `""`, `"a b"`, `"\u00e9"`, `"\n"`, `#"a\b"#`, `'bytes'`, `'\x00\xff'`, "\"\"\"\n\tmulti\n\tline\n\t\"\"\""})
-	case 8:
-		return common.Pick(g.r, []string{"true", "false"})
-	case 9:
-		return "null"
-	case 10:
-		return common.Pick(g.r, []string{"int", "string", "number", "float", "bool", "bytes", "_", "uint8", "int32", "{...}", "[...]"})
-	case 11:
-		return common.Pick(g.r, []string{">=0", "<10", ">1 & <5", "!=3", `=~"^a"`, `!~"b$"`, `!="x"`, ">=0.5", `<"m"`, "<=100"})
-	case 12:
-		return "_|_"
-	case 13:
-		if g.feat.refs && len(g.visible()) > 0 {
-			return `"p\(` + common.Pick(g.r, g.visible()) + `)s"`
+func (g *rich) lit(t ty) string {
+	switch t {
+	case tI:
+		if g.r.Chance(1, 12) {
+			return common.Pick(g.r, []string{"0x1F", "0b101", "0o17", "1_000", "1K", "2Mi", "123456789012345678901234567890", "-0"})
 		}
-		return `"lit"`
+		return fmt.Sprint(g.r.Intn(12) - 2)
+	case tS:
+		return common.Pick(g.r, []string{`"x"`, `"y"`, `"ab"`, `""`, `"a b"`, `"\u00e9"`, `"a\nb"`, `#"a\b"#`, "\"\"\"\n\tmulti\n\tline\n\t\"\"\"", `"abc"`, `"a,b,c"`, `"Hello World"`, `"aaaaaaaaaaaaaaaaaaaaaaaa"`})
+	case tB:
+		return common.Pick(g.r, []string{"true", "false"})
+	case tL:
+		return common.Pick(g.r, []string{"[1, 2, 3]", "[]", "[3, 1, 2, 1]", "[0]", "[5, 4]"})
+	case tT:
+		return common.Pick(g.r, []string{"{}", "{p: 1}", "{p: 1, q: \"s\"}", "{p: {q: 2}}"})
 	}
-	return fmt.Sprint(g.r.Intn(4))
+	return common.Pick(g.r, []string{"null", "1.5", "0.1", "1e3", "'bytes'", `'\x00\xff'`, "_", "2.0"})
 }
 
-var binOps = []string{"+", "-", "*", "/", "&", "&", "|", "==", "!=", "<", "<=", ">", ">=", "&&", "||", "=~", "!~", "div", "mod", "quo", "rem"}
+// schema-ish (incomplete) values of a type
+func (g *rich) typeLit(t ty) string {
+	switch t {
+	case tI:
+		return common.Pick(g.r, []string{"int", ">=0", "<100", ">-5 & <50", "!=77", "uint8", "int32", "number", "<=100"})
+	case tS:
+		return common.Pick(g.r, []string{"string", `=~"^"`, `!~"^zzz"`, `!="q"`, `<"zzzz"`})
+	case tB:
+		return "bool"
+	case tL:
+		return common.Pick(g.r, []string{"[...int]", "[...]", "[...>=-5]"})
+	case tT:
+		return common.Pick(g.r, []string{"{...}", "{[string]: _}", "_"})
+	}
+	return "_"
+}
 
-func (g *rich) expr(d int) string {
+func (g *rich) ref(t ty) string {
+	vs := g.visible(t)
+	if len(vs) == 0 || !g.feat.refs {
+		return g.lit(t)
+	}
+	return common.Pick(g.r, vs)
+}
+
+func (g *rich) expr(t ty, d int) string {
 	g.budget--
+	if g.chaos > 0 && g.r.Chance(1, g.chaos) {
+		return g.wild(d)
+	}
 	if d <= 0 || g.budget <= 0 {
 		if g.r.Chance(1, 2) {
-			return g.ref()
+			return g.ref(t)
 		}
-		return g.lit()
+		return g.lit(t)
 	}
-	switch k := g.r.Intn(24); {
-	case k < 5:
-		return g.lit()
-	case k < 9:
-		return g.ref()
-	case k < 12:
-		op := common.Pick(g.r, binOps)
-		a, b := g.expr(d-1), g.expr(d-1)
-		switch op {
-		case "div", "mod", "quo", "rem":
-			return fmt.Sprintf("%s(%s, %s)", op, a, b)
-		}
-		return fmt.Sprintf("(%s %s %s)", a, op, b)
-	case k < 13:
-		return common.Pick(g.r, []string{"-", "+", "!", "-"}) + "(" + g.expr(d-1) + ")"
-	case k < 16:
-		return g.structLit(d - 1)
-	case k < 18 && g.feat.lists:
-		return g.listLit(d - 1)
-	case k < 20 && g.feat.disj:
-		n := 2 + g.r.Intn(2)
-		var alts []string
-		for i := 0; i < n; i++ {
-			a := g.expr(d - 1)
-			if strings.ContainsAny(a, "|") {
-				a = "(" + a + ")"
+	if t == tA {
+		t = g.pickType()
+	}
+	if g.feat.disj && g.r.Chance(1, 7) {
+		return g.disj(t, d-1)
+	}
+	if g.feat.builtins && g.r.Chance(1, 3) {
+		return g.call(t, d-1)
+	}
+	switch t {
+	case tI:
+		switch g.r.Intn(12) {
+		case 0, 1, 2:
+			return g.lit(t)
+		case 3, 4, 5:
+			return g.ref(t)
+		case 6:
+			return "(" + g.expr(tI, d-1) + " " + common.Pick(g.r, []string{"+", "-", "*"}) + " " + g.expr(tI, d-1) + ")"
+		case 7:
+			return common.Pick(g.r, []string{"div", "mod", "quo", "rem"}) + "(" + g.expr(tI, d-1) + ", " + fmt.Sprint(1+g.r.Intn(5)) + ")"
+		case 8:
+			if g.feat.lists {
+				return "len(" + g.expr(tL, d-1) + ")"
 			}
-			if g.r.Chance(1, 3) {
-				a = "*" + a
-			}
-			alts = append(alts, a)
-		}
-		return "(" + strings.Join(alts, " | ") + ")"
-	case k < 22 && g.feat.builtins:
-		return g.call(d - 1)
-	case k < 23:
-		switch g.r.Intn(4) {
-		case 0:
-			return "len(" + g.expr(d-1) + ")"
-		case 1:
-			return "close(" + g.structLit(d-1) + ")"
-		case 2:
-			return "and([" + g.expr(d-1) + ", " + g.expr(d-1) + "])"
+			return "len(" + g.expr(tS, d-1) + ")"
+		case 9:
+			return "-(" + g.expr(tI, d-1) + ")"
+		case 10:
+			return "(" + g.typeLit(tI) + " & " + g.expr(tI, d-1) + ")"
 		default:
-			return "or([" + g.expr(d-1) + ", " + g.expr(d-1) + "])"
+			return g.typeLit(tI)
 		}
+	case tS:
+		switch g.r.Intn(10) {
+		case 0, 1, 2:
+			return g.lit(t)
+		case 3, 4:
+			return g.ref(t)
+		case 5:
+			return "(" + g.expr(tS, d-1) + " + " + g.expr(tS, d-1) + ")"
+		case 6, 7:
+			return `"p\(` + g.expr(tI, d-1) + `)-\(` + g.expr(tS, d-1) + `)"`
+		case 8:
+			return "(" + g.typeLit(tS) + " & " + g.expr(tS, d-1) + ")"
+		default:
+			return g.typeLit(tS)
+		}
+	case tB:
+		switch g.r.Intn(9) {
+		case 0, 1:
+			return g.lit(t)
+		case 2:
+			return g.ref(t)
+		case 3, 4:
+			return "(" + g.expr(tI, d-1) + " " + common.Pick(g.r, []string{"<", "<=", ">", ">=", "==", "!="}) + " " + g.expr(tI, d-1) + ")"
+		case 5:
+			return "(" + g.expr(tS, d-1) + " " + common.Pick(g.r, []string{"==", "!=", "<"}) + " " + g.expr(tS, d-1) + ")"
+		case 6:
+			return "!(" + g.expr(tB, d-1) + ")"
+		case 7:
+			return "(" + g.expr(tB, d-1) + " " + common.Pick(g.r, []string{"&&", "||"}) + " " + g.expr(tB, d-1) + ")"
+		default:
+			return "(" + g.expr(tS, d-1) + " " + common.Pick(g.r, []string{"=~", "!~"}) + ` "^[a-x]")`
+		}
+	case tL:
+		switch g.r.Intn(9) {
+		case 0, 1:
+			return g.lit(t)
+		case 2, 3:
+			return g.ref(t)
+		case 4, 5:
+			n := g.r.Intn(4)
+			var es []string
+			for i := 0; i < n; i++ {
+				es = append(es, g.expr(tI, d-1))
+			}
+			return "[" + strings.Join(es, ", ") + "]"
+		case 6, 7:
+			if g.feat.compr {
+				src := g.expr(tL, d-1)
+				cond := ""
+				if g.r.Chance(1, 2) {
+					cond = " if x > " + fmt.Sprint(g.r.Intn(3))
+				}
+				g.push()
+				g.declare("x", tI)
+				body := g.expr(tI, d-1)
+				g.pop()
+				return "[for x in " + src + cond + " {" + body + "}]"
+			}
+			return "[" + g.expr(tI, d-1) + ", ...int]"
+		default:
+			return "(" + g.typeLit(tL) + " & " + g.expr(tL, d-1) + ")"
+		}
+	case tT:
+		switch g.r.Intn(8) {
+		case 0:
+			return g.ref(t)
+		case 1:
+			return "(" + g.ref(t) + " & " + g.typeLit(tT) + ")"
+		case 2:
+			if g.feat.defs {
+				return "close(" + g.structLit(d-1) + ")"
+			}
+		}
+		return g.structLit(d - 1)
 	}
-	return g.ref()
+	return g.lit(tA)
 }
 
-func (g *rich) listLit(d int) string {
+// wild: an expression of arbitrary type and shape (the malformed stream)
+func (g *rich) wild(d int) string {
+	save := g.chaos
+	g.chaos = 0
+	defer func() { g.chaos = save }()
+	switch g.r.Intn(12) {
+	case 0:
+		return "_|_"
+	case 1:
+		return g.ref(tA) + "." + common.Pick(g.r, richNames[:5])
+	case 2:
+		return g.ref(tA) + "[" + fmt.Sprint(g.r.Intn(4)) + "]"
+	case 3:
+		return g.ref(tA) + `["a"]`
+	case 4:
+		return "(" + g.expr(tA, d-1) + " " + common.Pick(g.r, binOps) + " " + g.expr(tA, d-1) + ")"
+	case 5:
+		return common.Pick(g.r, []string{"-", "+", "!"}) + "(" + g.expr(tA, d-1) + ")"
+	case 6:
+		return "len(" + g.expr(tA, d-1) + ")"
+	case 7:
+		return "and([" + g.expr(tA, d-1) + ", " + g.expr(tA, d-1) + "])"
+	case 8:
+		return "or([" + g.expr(tA, d-1) + ", " + g.expr(tA, d-1) + "])"
+	case 9:
+		return "[..." + g.expr(tA, d-1) + "]"
+	case 10:
+		return "div(" + g.expr(tA, d-1) + ", " + g.expr(tA, d-1) + ")"
+	}
+	return g.expr(g.pickType(), d-1)
+}
+
+var binOps = []string{"+", "-", "*", "/", "&", "&", "|", "==", "!=", "<", "<=", ">", ">=", "&&", "||", "=~", "!~"}
+
+func (g *rich) disj(t ty, d int) string {
 	switch g.r.Intn(6) {
 	case 0:
-		return "[..." + g.expr(d) + "]"
+		return "(*" + g.expr(t, d) + " | " + g.typeLit(t) + ")"
 	case 1:
-		if g.feat.compr {
-			src := g.ref()
-			if g.r.Chance(1, 2) {
-				src = "[1, 2, 3]"
-			}
-			cond := ""
-			if g.r.Chance(1, 2) {
-				cond = " if x > " + fmt.Sprint(g.r.Intn(3))
-			}
-			g.push()
-			g.declare("x")
-			body := g.expr(d)
-			g.pop()
-			return "[for x in " + src + cond + " {" + body + "}]"
-		}
+		return "(" + g.expr(t, d) + " | *" + g.expr(t, d) + ")"
 	case 2:
-		return "[" + g.expr(d) + ", ..." + g.lit() + "]"
+		return "(" + g.typeLit(t) + " | *" + g.expr(t, d) + ")"
+	case 3:
+		// a disjunction across types, resolved by a conjunct
+		return "((" + g.expr(tI, d) + " | " + g.expr(tS, d) + " | " + g.expr(tB, d) + ") & " + g.typeLit(t) + ")"
+	case 4:
+		return "(" + g.expr(t, d) + " | " + g.expr(t, d) + " | " + g.expr(t, d) + ")"
 	}
-	n := g.r.Intn(4)
-	var es []string
-	for i := 0; i < n; i++ {
-		es = append(es, g.expr(d))
-	}
-	return "[" + strings.Join(es, ", ") + "]"
+	e := g.expr(t, d)
+	return "(*" + e + " | " + g.lit(t) + ")"
 }
 
 func (g *rich) structLit(d int) string {
@@ -184,61 +319,88 @@ func (g *rich) structLit(d int) string {
 
 func (g *rich) decls(d, n int) []string {
 	var ds []string
-	// names first, so that forward references are possible
+	// names and types first, so that forward references are possible
 	names := make([]string, n)
+	types := make([]ty, n)
 	for i := range names {
-		names[i] = common.Pick(g.r, richNames)
-		g.declare(names[i])
+		names[i] = g.fresh()
+		types[i] = g.pickType()
+		if g.feat.defs && g.r.Chance(1, 8) {
+			names[i] = "#" + strings.ToUpper(strings.TrimLeft(names[i], "_"))
+			types[i] = tT
+		}
+		g.declare(names[i], types[i])
 	}
 	for i := 0; i < n; i++ {
 		g.budget--
-		switch k := g.r.Intn(30); {
-		case k < 17:
+		nm, t := names[i], types[i]
+		switch k := g.r.Intn(34); {
+		case k < 18:
 			suf := ""
-			if g.r.Chance(1, 8) {
+			if g.r.Chance(1, 10) && !strings.HasPrefix(nm, "#") {
 				suf = common.Pick(g.r, []string{"?", "!"})
 			}
-			ds = append(ds, names[i]+suf+": "+g.expr(d))
-		case k < 18:
-			ds = append(ds, fmt.Sprintf("%q: %s", strings.TrimLeft(names[i], "#_"), g.expr(d)))
-		case k < 19 && g.feat.dyn:
-			ds = append(ds, "("+g.ref()+"): "+g.expr(d))
-		case k < 20 && g.feat.dyn:
-			ds = append(ds, `"k\(`+g.ref()+`)": `+g.expr(d))
-		case k < 21:
-			ds = append(ds, "["+common.Pick(g.r, []string{"string", `=~"^a"`, `!="c"`, "_"})+"]: "+g.expr(d))
-		case k < 22:
-			ds = append(ds, "...")
-		case k < 23:
-			ds = append(ds, g.expr(d)) // embedding
-		case k < 25 && g.feat.lets:
+			ds = append(ds, nm+suf+": "+g.expr(t, d))
+		case k < 20: // the same field twice: schema and value
+			ds = append(ds, nm+": "+g.typeLit(t))
+			ds = append(ds, nm+": "+g.expr(t, d))
+		case k < 21 && !strings.HasPrefix(nm, "#") && !strings.HasPrefix(nm, "_"):
+			ds = append(ds, fmt.Sprintf("%q: %s", nm, g.expr(t, d)))
+		case k < 22 && g.feat.dyn:
+			ds = append(ds, "("+g.expr(tS, 1)+"): "+g.expr(t, d))
+			ds = append(ds, nm+": "+g.expr(t, d))
+		case k < 23 && g.feat.dyn:
+			ds = append(ds, `"k\(`+g.expr(tI, 1)+`)": `+g.expr(t, d))
+			ds = append(ds, nm+": "+g.expr(t, d))
+		case k < 24:
+			ds = append(ds, "["+common.Pick(g.r, []string{`=~"^zz"`, `=~"^Q"`})+"]: "+g.expr(tA, d))
+			ds = append(ds, nm+": "+g.expr(t, d))
+		case k < 25:
+			ds = append(ds, nm+": "+g.expr(t, d), "...")
+		case k < 26:
+			ds = append(ds, nm+": "+g.expr(t, d))
+			ds = append(ds, g.expr(tT, d)) // embedding
+		case k < 29 && g.feat.lets:
 			g.lets++
-			nm := fmt.Sprintf("L%d", g.lets)
-			e := g.expr(d)
-			g.declare(nm)
-			ds = append(ds, "let "+nm+" = "+e)
-		case k < 27 && g.feat.compr:
-			src := g.ref()
+			ln := fmt.Sprintf("L%d", g.lets)
+			lt := g.pickType()
+			e := g.expr(lt, d)
+			g.declare(ln, lt)
+			ds = append(ds, "let "+ln+" = "+e)
+			if t == lt && g.r.Chance(5, 6) {
+				ds = append(ds, nm+": "+ln)
+			} else {
+				ds = append(ds, nm+": "+g.expr(t, d))
+				if g.r.Chance(5, 6) {
+					ds = append(ds, fmt.Sprintf("u%d: %s", g.lets, ln))
+				}
+			}
+		case k < 31 && g.feat.compr:
+			ds = append(ds, nm+": "+g.expr(t, d))
+			src := g.expr(tT, d-1)
 			g.push()
-			g.declare("k")
-			g.declare("v")
-			body := strings.Join(g.decls(d-1, 1+g.r.Intn(2)), ", ")
-			if g.r.Chance(1, 2) {
-				body = `"\(k)": v` + ", " + body
+			g.declare("k", tS)
+			g.declare("v", tA)
+			body := `"c\(k)": v`
+			if g.r.Chance(1, 3) {
+				body += ", " + strings.Join(g.decls(d-1, 1), ", ")
 			}
 			g.pop()
 			ds = append(ds, "for k, v in "+src+" {"+body+"}")
-		case k < 29 && g.feat.compr:
-			cond := g.expr(1)
-			if g.r.Chance(1, 2) {
-				cond = g.ref() + " != _|_"
+		case k < 33 && g.feat.compr:
+			ds = append(ds, nm+": "+g.expr(t, d))
+			cond := g.expr(tB, 2)
+			if g.r.Chance(1, 3) {
+				cond = g.ref(tA) + " != _|_"
 			}
 			g.push()
 			body := strings.Join(g.decls(d-1, 1+g.r.Intn(2)), ", ")
 			g.pop()
-			ds = append(ds, "if "+cond+" {"+body+"}")
+			// the guarded fields get labels of their own: no clash with the enclosing scope
+			body = strings.NewReplacer().Replace(body)
+			ds = append(ds, "if "+cond+" {w"+fmt.Sprint(g.r.Intn(1000))+": {"+body+"}}")
 		default:
-			ds = append(ds, names[i]+": "+g.expr(d)+" @attr(x,y=1)")
+			ds = append(ds, nm+": "+g.expr(t, d)+" @attr(x,y=1)")
 		}
 	}
 	return ds
@@ -271,172 +433,174 @@ func (g *rich) file(depth, ndecl int) string {
 
 // ---- builtin calls ---------------------------------------------------------
 
-func (g *rich) str(d int) string {
-	if g.r.Chance(1, 3) {
-		return g.expr(d)
-	}
-	return common.Pick(g.r, []string{`"abc"`, `"a,b,c"`, `""`, `"Hello World"`, `"aaaaaaaaaaaaaaaaaaaaaaaa"`, `" x "`, `"\u00e9\u4e16"`, `"a\nb"`})
-}
-func (g *rich) num(d int) string {
-	if g.r.Chance(1, 3) {
-		return g.expr(d)
-	}
-	return common.Pick(g.r, []string{"0", "1", "2", "3", "-1", "10", "100", "2.5", "0.5", "-3", "7"})
-}
-func (g *rich) lst(d int) string {
-	if g.r.Chance(1, 3) {
-		return g.expr(d)
-	}
-	return common.Pick(g.r, []string{"[1, 2, 3]", "[]", `["b", "a", "c"]`, "[3, 1, 2, 1]", "[[1], [2, [3]]]", "[1.5, 2]", `[{a: 1}, {a: 2}]`})
-}
+var patPool = []string{`"^a"`, `"(a*)*b"`, `"(a|aa)+$"`, `"[a-z]+"`, `"(?i)HELLO"`, `"a{2,3}"`, `"\\d+"`, `"(?P<n>a)(b)?"`, `"(x+x+)+y"`, `"[[:alpha:]]*"`, `"\\pL+"`, `".*.*.*.*.*=.*"`, `"(a{10}){10}"`}
+var badPatPool = []string{`"("`, `"a{1000}"`, `"(a{100}){100}"`, `"\\"`, `"[z-a]"`, `"(?<n>a)"`, `"a**"`, `"\\xZZ"`}
 
-var patPool = []string{`"^a"`, `"(a*)*b"`, `"(a|aa)+$"`, `"[a-z]+"`, `"(?i)HELLO"`, `"a{2,3}"`, `"("`, `"\\d+"`, `"(?P<n>a)(b)?"`, `"(x+x+)+y"`, `"a{1000}"`, `"(a{100}){100}"`, `"[[:alpha:]]*"`, `"\\pL+"`, `".*.*.*.*.*=.*"`}
+var jsonObjPool = []string{`{}`, `{"a": 1, "b": [1, 2, {"c": null}]}`, `{"a": {"a": {"a": 1}}}`, `{"\u00e9": "\ud83d\ude00"}`, `{"": 0}`, `{"a b": true, "#d": 1.5e3, "_e": "s"}`}
+var jsonBadPool = []string{`{"a":}`, `[1,`, `{"a": 1e999}`, `{"a": 1, "a": 2}`, ``, `nul`, `"\ud800"`, `{"a": 01}`, `[1 2]`}
+var yamlObjPool = []string{"a: 1\nb: [1, 2]\n", "a: &x 1\nb: *x\n", "a:\n  b:\n    c: d\n", "a: |\n  text\n  more\n", "? k\n: v\n", "a: !!str 1\n", "a: 0o17\nb: 0x1f\nd: ~\n", "\"k\": 'v'\n", "a: {b: [1, {c: d}]}\n"}
+var yamlBadPool = []string{"a: [", "a: *nope\n", "&a [*a]\n", "{a: 1, a: 2}\n", "---\na: 1\n---\nb: 2\n", "a: .inf\n", "a: 2001-01-01\n", "\t- x", "a: !!binary x\n", "- 1\n- x\n"}
 
-var jsonPool = []string{`{}`, `[]`, `{"a": 1, "b": [1, 2, {"c": null}]}`, `[1, "x", true, null, 1.5e3]`, `{"a": {"a": {"a": 1}}}`, `"str"`, `1`, `{"a": 1, "a": 2}`, `{"a":}`, `[1,`, `{"\u00e9": "\ud83d\ude00"}`, `{"a": 1e999}`, `-0`, `{"": 0}`}
-
-var yamlPool = []string{"a: 1\nb: [1, 2]\n", "- 1\n- x\n- {a: b}\n", "a: &x 1\nb: *x\n", "a:\n  b:\n    c: d\n", "a: |\n  text\n  more\n", "? k\n: v\n", "a: !!str 1\n", "---\na: 1\n---\nb: 2\n", "a: [", "a: *nope\n", "&a [*a]\n", "a: 0o17\nb: 0x1f\nc: .inf\nd: ~\ne: 2001-01-01\n", "{a: 1, a: 2}\n", "\"k\": 'v'\n"}
-
-func (g *rich) call(d int) string {
-	use := func(p string) { g.pkgs[p] = true }
+func (g *rich) call(t ty, d int) string {
 	q := func(s string) string { return fmt.Sprintf("%q", s) }
-	switch g.r.Intn(9) {
-	case 0, 1:
-		use("strings")
+	pat := common.Pick(g.r, patPool)
+	if g.r.Chance(1, 12) {
+		pat = common.Pick(g.r, badPatPool)
+	}
+	small := func() string { return fmt.Sprint(g.r.Intn(5)) }
+	switch t {
+	case tI:
+		switch g.r.Intn(9) {
+		case 0:
+			g.use("strings")
+			return "strings.Index(" + g.expr(tS, d) + ", " + g.expr(tS, d) + ")"
+		case 1:
+			g.use("strings")
+			return "strings.Count(" + g.expr(tS, d) + `, "a")`
+		case 2:
+			g.use("list")
+			return "list.Sum(" + g.expr(tL, d) + ")"
+		case 3:
+			g.use("list")
+			return "list.Max(" + "[1, " + g.expr(tI, d) + "])"
+		case 4:
+			g.use("math")
+			return "math.Abs(" + g.expr(tI, d) + ")"
+		case 5:
+			g.use("math")
+			return common.Pick(g.r, []string{"math.Floor", "math.Ceil", "math.Round", "math.Trunc"}) + "(" + g.expr(tI, d) + " / 2)"
+		case 6:
+			g.use("strconv")
+			return "strconv.Atoi(\"" + fmt.Sprint(g.r.Intn(100)) + "\")"
+		case 7:
+			g.use("math/bits")
+			return common.Pick(g.r, []string{"bits.And", "bits.Or", "bits.Xor", "bits.Lsh"}) + "(" + g.expr(tI, d) + ", " + small() + ")"
+		default:
+			g.use("math")
+			return "math.Jacobi(" + g.expr(tI, d) + ", " + fmt.Sprint(2*g.r.Intn(4)+1) + ")"
+		}
+	case tS:
 		switch g.r.Intn(12) {
 		case 0:
-			return "strings.Repeat(" + g.str(d) + ", " + fmt.Sprint(g.r.Intn(6)) + ")"
+			g.use("strings")
+			return "strings.Repeat(" + g.expr(tS, d) + ", " + small() + ")"
 		case 1:
-			return "strings.Join(" + g.lst(d) + `, ",")`
+			g.use("strings")
+			return "strings.Join(strings.Split(" + g.expr(tS, d) + `, ","), "-")`
 		case 2:
-			return "strings.Split(" + g.str(d) + `, ",")`
+			g.use("strings")
+			return common.Pick(g.r, []string{"strings.ToUpper", "strings.ToLower", "strings.TrimSpace", "strings.ToTitle"}) + "(" + g.expr(tS, d) + ")"
 		case 3:
-			return "strings.ToUpper(" + g.str(d) + ")"
+			g.use("strings")
+			return "strings.Replace(" + g.expr(tS, d) + `, "a", "bb", ` + fmt.Sprint(g.r.Intn(4)-1) + ")"
 		case 4:
-			return "strings.Contains(" + g.str(d) + ", " + g.str(d) + ")"
+			g.use("strings")
+			return "strings.SliceRunes(" + g.expr(tS, d) + ", 0, " + small() + ")"
 		case 5:
-			return "strings.Replace(" + g.str(d) + `, "a", "bb", ` + g.num(d) + ")"
+			g.use("regexp")
+			return "regexp.ReplaceAll(" + pat + ", " + g.expr(tS, d) + `, "$0-")`
 		case 6:
-			return "strings.Fields(" + g.str(d) + ")"
+			g.use("regexp")
+			return "regexp.Find(" + pat + ", " + g.expr(tS, d) + ")"
 		case 7:
-			return "strings.SliceRunes(" + g.str(d) + ", " + g.num(d) + ", " + g.num(d) + ")"
+			g.use("encoding/json")
+			return "json.Marshal(" + g.expr(tA, d) + ")"
 		case 8:
-			return "strings.MinRunes(" + g.num(d) + ")"
+			g.use("encoding/yaml")
+			return "yaml.Marshal(" + g.expr(tA, d) + ")"
 		case 9:
-			return "strings.ByteAt(" + g.str(d) + ", " + g.num(d) + ")"
+			g.use("encoding/json")
+			return "json.Indent(json.Marshal(" + g.expr(tT, d) + `), "", " ")`
 		case 10:
-			return "strings.ByteSlice(" + g.str(d) + ", " + g.num(d) + ", " + g.num(d) + ")"
+			g.use("strconv")
+			return "strconv.FormatInt(" + g.expr(tI, d) + ", " + common.Pick(g.r, []string{"2", "10", "16", "36", "1", "37"}) + ")"
 		default:
-			return "strings.Index(" + g.str(d) + ", " + g.str(d) + ")"
+			g.use("encoding/yaml")
+			return "yaml.MarshalStream([" + g.expr(tT, d) + ", " + g.expr(tT, d) + "])"
 		}
-	case 2, 3:
-		use("list")
-		switch g.r.Intn(14) {
+	case tB:
+		switch g.r.Intn(8) {
 		case 0:
-			return "list.Repeat(" + g.lst(d) + ", " + fmt.Sprint(g.r.Intn(5)) + ")"
+			g.use("strings")
+			return common.Pick(g.r, []string{"strings.Contains", "strings.HasPrefix", "strings.HasSuffix"}) + "(" + g.expr(tS, d) + ", " + g.expr(tS, d) + ")"
 		case 1:
-			return fmt.Sprintf("list.Range(%d, %d, %d)", g.r.Intn(4), g.r.Intn(12), g.r.Intn(4)-1)
+			g.use("list")
+			return "list.Contains(" + g.expr(tL, d) + ", " + g.expr(tI, d) + ")"
 		case 2:
-			return "list.Sort(" + g.lst(d) + ", list.Ascending)"
+			g.use("regexp")
+			return "regexp.Match(" + pat + ", " + g.expr(tS, d) + ")"
 		case 3:
-			return "list.SortStrings(" + g.lst(d) + ")"
+			g.use("encoding/json")
+			txt := common.Pick(g.r, jsonObjPool)
+			if g.r.Chance(1, 3) {
+				txt = common.Pick(g.r, jsonBadPool)
+			}
+			return "json.Valid(" + q(txt) + ")"
 		case 4:
-			return "list.Concat([" + g.lst(d) + ", " + g.lst(d) + "])"
+			g.use("encoding/json")
+			return "json.Validate(" + q(common.Pick(g.r, jsonObjPool)) + ", " + g.typeLit(tT) + ")"
 		case 5:
-			return "list.FlattenN(" + g.lst(d) + ", " + g.num(d) + ")"
+			g.use("encoding/yaml")
+			return "yaml.Validate(" + q(common.Pick(g.r, yamlObjPool)) + ", " + g.typeLit(tT) + ")"
 		case 6:
-			return "list.Sum(" + g.lst(d) + ")"
-		case 7:
-			return "list.Max(" + g.lst(d) + ")"
-		case 8:
-			return "list.Slice(" + g.lst(d) + ", " + g.num(d) + ", " + g.num(d) + ")"
-		case 9:
-			return "list.Take(" + g.lst(d) + ", " + g.num(d) + ")"
-		case 10:
-			return "list.Contains(" + g.lst(d) + ", " + g.expr(d) + ")"
-		case 11:
-			return "list.UniqueItems()"
-		case 12:
-			return "list.Sort(" + g.lst(d) + ", {x: _, y: _, less: x.a < y.a})"
+			g.use("list")
+			return common.Pick(g.r, []string{"list.IsSorted(", "list.IsSortedStrings(strings.Split(\"b,a\", \",\")) && list.IsSorted("}) + g.expr(tL, d) + ", list.Ascending)"
 		default:
-			return "list.MinItems(" + g.num(d) + ")"
+			g.use("math")
+			return "math.MultipleOf(" + g.expr(tI, d) + ", " + fmt.Sprint(1+g.r.Intn(4)) + ")"
 		}
-	case 4:
-		use("math")
+	case tL:
+		g.use("list")
 		switch g.r.Intn(10) {
 		case 0:
-			return "math.Pow(" + g.num(d) + ", " + g.num(d) + ")"
+			return "list.Repeat(" + g.expr(tL, d) + ", " + small() + ")"
 		case 1:
-			return "math.Sqrt(" + g.num(d) + ")"
+			return fmt.Sprintf("list.Range(%d, %d, %d)", g.r.Intn(4), g.r.Intn(12), 1+g.r.Intn(3))
 		case 2:
-			return "math.Floor(" + g.num(d) + ")"
+			return "list.Sort(" + g.expr(tL, d) + ", " + common.Pick(g.r, []string{"list.Ascending", "list.Descending", "{x: _, y: _, less: x < y}"}) + ")"
 		case 3:
-			return "math.Log(" + g.num(d) + ")"
+			return "list.Concat([" + g.expr(tL, d) + ", " + g.expr(tL, d) + "])"
 		case 4:
-			return "math.Exp(" + g.num(d) + ")"
+			return "list.FlattenN([" + g.expr(tL, d) + ", [" + g.expr(tL, d) + "]], " + fmt.Sprint(g.r.Intn(4)-1) + ")"
 		case 5:
-			return "math.MultipleOf(" + g.num(d) + ", " + g.num(d) + ")"
+			return "list.Slice(" + g.expr(tL, d) + ", 0, " + small() + ")"
 		case 6:
-			return "math.Abs(" + g.num(d) + ")"
+			return common.Pick(g.r, []string{"list.Take", "list.Drop"}) + "(" + g.expr(tL, d) + ", " + small() + ")"
 		case 7:
-			return "math.Jacobi(" + g.num(d) + ", " + g.num(d) + ")"
+			return "(list.UniqueItems() & list.MinItems(" + small() + ") & " + g.expr(tL, d) + ")"
 		case 8:
-			return "math.Round(" + g.num(d) + ")"
+			return "list.Reverse(" + g.expr(tL, d) + ")"
 		default:
-			return "math.Cbrt(" + g.num(d) + ")"
+			return "list.SortStable(" + g.expr(tL, d) + ", list.Ascending)"
 		}
-	case 5:
-		use("regexp")
-		pat := common.Pick(g.r, patPool)
+	case tT:
 		switch g.r.Intn(6) {
-		case 0:
-			return "regexp.Match(" + pat + ", " + g.str(d) + ")"
-		case 1:
-			return "regexp.Find(" + pat + ", " + g.str(d) + ")"
-		case 2:
-			return "regexp.FindAll(" + pat + ", " + g.str(d) + ", " + g.num(d) + ")"
-		case 3:
-			return "regexp.FindSubmatch(" + pat + ", " + g.str(d) + ")"
-		case 4:
-			return "regexp.ReplaceAll(" + pat + ", " + g.str(d) + `, "$1-")`
-		default:
-			return "regexp.FindNamedSubmatch(" + pat + ", " + g.str(d) + ")"
-		}
-	case 6:
-		use("struct")
-		if g.r.Chance(1, 2) {
-			return "(struct.MinFields(" + g.num(d) + ") & " + g.structLit(d) + ")"
-		}
-		return "(struct.MaxFields(" + g.num(d) + ") & " + g.structLit(d) + ")"
-	case 7:
-		use("encoding/json")
-		txt := common.Pick(g.r, jsonPool)
-		if g.r.Chance(1, 4) {
-			txt = genJSONText(g.r, 3)
-		}
-		switch g.r.Intn(5) {
 		case 0, 1:
+			g.use("encoding/json")
+			txt := common.Pick(g.r, jsonObjPool)
+			switch g.r.Intn(8) {
+			case 0:
+				txt = common.Pick(g.r, jsonBadPool)
+			case 1, 2:
+				txt = genJSONText(g.r, 3)
+			}
 			return "json.Unmarshal(" + q(txt) + ")"
-		case 2:
-			return "json.Marshal(" + g.expr(d) + ")"
-		case 3:
-			return "json.Validate(" + q(txt) + ", " + g.expr(d) + ")"
-		default:
-			return "json.Indent(" + q(txt) + `, "", " ")`
-		}
-	default:
-		use("encoding/yaml")
-		txt := common.Pick(g.r, yamlPool)
-		switch g.r.Intn(5) {
-		case 0, 1:
+		case 2, 3:
+			g.use("encoding/yaml")
+			txt := common.Pick(g.r, yamlObjPool)
+			if g.r.Chance(1, 8) {
+				txt = common.Pick(g.r, yamlBadPool)
+			}
 			return "yaml.Unmarshal(" + q(txt) + ")"
-		case 2:
-			return "yaml.Marshal(" + g.expr(d) + ")"
-		case 3:
-			return "yaml.Validate(" + q(txt) + ", " + g.expr(d) + ")"
+		case 4:
+			g.use("struct")
+			return "(struct.MinFields(" + small() + ") & " + g.structLit(d) + ")"
 		default:
-			return "yaml.MarshalStream(" + g.lst(d) + ")"
+			g.use("struct")
+			return "(struct.MaxFields(" + fmt.Sprint(2+g.r.Intn(8)) + ") & " + g.structLit(d) + ")"
 		}
 	}
+	return g.lit(t)
 }
 
 func genJSONText(r *common.Rng, d int) string {
@@ -723,7 +887,30 @@ func manyFields(n int) string {
 	return b.String()
 }
 
-// bigExcluded: members of bigInputs() that do NOT stay within the worker's
-// memory cap / timeout on the pinned tree (observations B-* in the notes);
-// they are excluded from the default stream.  Filled in after triage.
-var bigExcluded = map[string]string{}
+// bigExcluded: members of bigInputs() that do NOT stay within the worker's memory
+// cap / CPU budget on the pinned tree (observations B-1..B-7 in
+// design/C02-explore-notes.md; measured single-run CPU in parentheses, "-" = killed
+// at 100 s); they are excluded from the default stream, `--big all` runs them.
+var bigExcluded = map[string]string{
+	"lsh-100g":         "B-1 math/bits.Lsh(1, 1e11): one 12.5 GB allocation -> fatal error: out of memory under the cap",
+	"lsh-1g":           "B-1 math/bits.Lsh(1, 1e9): 125 MB integer, decimal rendering does not finish (-)",
+	"lrange-10m":       "B-2 list.Range has no size limit (-)",
+	"lrange-1g":        "B-2 list.Range has no size limit (-)",
+	"lrange-tiny-step": "B-2 list.Range(0, 1, 1e-9): 1e9 elements (-)",
+	"repeat-nest":      "B-3 strings.Repeat nested 1000x1000x1000 = 1 GB string (-)",
+	"lrange-100k":      "B-4 evaluation quadratic in list length: 100k elements (53 s)",
+	"lrepeat-100k":     "B-4 same (71 s)",
+	"listlit-100k":     "B-4 same (38 s)",
+	"compr-sq":         "B-4 same, 90k elements (75 s)",
+	"compr-1m":         "B-4 same, 1M elements (-)",
+	"fields-100k":      "B-5 100k fields: Syntax+format super-linear (-)",
+	"disj-exp-20":      "B-6 exponential disjunction cross product (-)",
+	"disj-exp-40":      "B-6 same (-)",
+	"dup-exp-20":       "B-6 exponential duplication f(n) = {l: f(n-1), r: f(n-1)} (-)",
+	"dup-exp-30":       "B-6 same (-)",
+	"dup-exp-60":       "B-6 same (-)",
+	"json-deep-9k":     "B-7 json.Unmarshal of 9000 nested lists: Syntax/yaml quadratic (27 s)",
+	"json-deepobj-9k":  "B-7 9000 nested objects: yaml.Encode cubic (-)",
+	"yaml-deepmap-9k":  "B-7 same (-)",
+	"yaml-deep-20k":    "B-7 yaml.Unmarshal of 20000 nested lists: no nesting limit in the YAML decoder, super-linear (-)",
+}
